@@ -83,11 +83,18 @@ def collections(tier):
             all_blank = [t.replace('<roID>RO1</roID>', '<roID />') for t in docs]
             one_blank = docs[:-1] + [docs[-1].replace('<roID>RO1</roID>', '<roID />')]
             one_missing = docs[:-1] + [docs[-1].replace('<roID>RO1</roID>', '')]
+            one_padded = docs[:-1] + [docs[-1].replace('<roID>RO1</roID>', '<roID>RO1 </roID>')]
+            one_indented = docs[:-1] + [docs[-1].replace('<roID>RO1</roID>', '<roID>\n    RO1\n  </roID>')]
+            one_case = docs[:-1] + [docs[-1].replace('<roID>RO1</roID>', '<roID>ro1</roID>')]
             for inc in (False, True):
                 ok = n_rd <= 1 and (inc or n_rd == 1)
                 yield all_blank, inc, ok, {'rc': n_rc, 'rd': n_rd, 'other': n_other, 'mixed': False, 'shape': 'blank-roid-all'}
                 yield one_blank, inc, False, {'rc': n_rc, 'rd': n_rd, 'other': n_other, 'mixed': True, 'shape': 'blank-roid-one'}
                 yield one_missing, inc, None, {'rc': n_rc, 'rd': n_rd, 'other': n_other, 'mixed': None, 'shape': 'missing-roid-one'}
+                # IDs are opaque strings: one that differs only by white space or case is another running order
+                yield one_padded, inc, False, {'rc': n_rc, 'rd': n_rd, 'other': n_other, 'mixed': True, 'shape': 'padded-roid-one'}
+                yield one_indented, inc, False, {'rc': n_rc, 'rd': n_rd, 'other': n_other, 'mixed': True, 'shape': 'indented-roid-one'}
+                yield one_case, inc, False, {'rc': n_rc, 'rd': n_rd, 'other': n_other, 'mixed': True, 'shape': 'case-roid-one'}
 
 
 CLASS_OF = {'roReplace': 'RunningOrderReplace', 'roStoryAppend': 'StoryAppend', 'roReadyToAir': 'ReadyToAir', 'roDelete': 'RunningOrderEnd'}
